@@ -222,19 +222,36 @@ pub fn gen_device(t: &mut Tape, cfg: &GenCfg, ordinal: usize) -> DevSpec {
             sm_index += 1;
         }
     }
-    // FMMU usage: one outputs, one inputs, optionally a mailbox status FMMU.
-    let mut fmmu_usage = Vec::new();
-    if pd_sms.iter().any(|s| s.is_output) {
-        fmmu_usage.push(1);
-    }
-    if pd_sms.iter().any(|s| !s.is_output) {
-        fmmu_usage.push(2);
+    // Process data FMMUs: one per direction when the sync managers of that direction are adjacent in
+    // memory (the FMMU spans them), otherwise one per sync manager.
+    let mut fmmu_usage: Vec<u8> = Vec::new();
+    let mut fmmu_sm: Vec<u8> = Vec::new(); // the (first) sync manager each FMMU serves
+    for is_out in [true, false] {
+        let dir: Vec<&PdSm> = pd_sms.iter().filter(|s| s.is_output == is_out).collect();
+        if dir.is_empty() {
+            continue;
+        }
+        let contiguous = dir.windows(2).all(|p| p[0].start + p[0].bytes() == p[1].start);
+        let per_sm = !contiguous || (dir.len() > 1 && t.flag(30, 100, "fmmu_per_sm"));
+        if per_sm {
+            for s in &dir {
+                fmmu_usage.push(if is_out { 1 } else { 2 });
+                fmmu_sm.push(s.index);
+            }
+        } else {
+            fmmu_usage.push(if is_out { 1 } else { 2 });
+            fmmu_sm.push(dir[0].index);
+        }
     }
     if has_mailbox && t.flag(50, 100, "mbx_fmmu") {
         fmmu_usage.push(3);
+        fmmu_sm.push(1);
     }
-    let fmmu_ex = if t.flag(cfg.fmmu_ex_pct, 100, "fmmu_ex") {
-        Some(pd_sms.iter().map(|s| [0u8, s.index, 0u8]).collect())
+    // FMMU_EX: entry N names the sync manager FMMU N serves. Only meaningful (and only generated)
+    // when every process data sync manager has its own FMMU.
+    let one_fmmu_per_sm = fmmu_sm.iter().filter(|s| **s != 1 || !has_mailbox).count() >= pd_sms.len();
+    let fmmu_ex = if one_fmmu_per_sm && !pd_sms.is_empty() && t.flag(cfg.fmmu_ex_pct, 100, "fmmu_ex") {
+        Some(fmmu_sm.iter().map(|s| [0u8, *s, 0u8]).collect())
     } else {
         None
     };
@@ -268,7 +285,8 @@ pub fn gen_device(t: &mut Tape, cfg: &GenCfg, ordinal: usize) -> DevSpec {
         eeprom = image.encode(true);
     }
     let size_kbit = image.header.size_word as usize + 1;
-    let need_fmmus = sm_index.max(fmmu_usage.len() as u8).max(2);
+    // A device implements the FMMUs its EEPROM's FMMU category lists.
+    let need_fmmus = (fmmu_usage.len() as u8).max(1);
     DevSpec {
         vendor,
         product,
@@ -282,7 +300,7 @@ pub fn gen_device(t: &mut Tape, cfg: &GenCfg, ordinal: usize) -> DevSpec {
         fmmu_ex,
         support_flags,
         read8: t.flag(50, 100, "read8"),
-        fmmu_count: if cfg.tight_fmmus { need_fmmus } else { t.pick(&[8u8, 16, 4], "fmmu_count").max(need_fmmus) },
+        fmmu_count: if cfg.tight_fmmus { need_fmmus } else { t.pick(&[8u8, 16], "fmmu_count").max(need_fmmus) },
         sm_count: t.pick(&[8u8, 16, 4], "sm_count").max(sm_index),
         prev_station_addr: t.pick(&[0u16, 0x1000, 0x1001, 0x1234, 0xffff, 0x1002], "prev_addr"),
         size_kbit,
